@@ -9,6 +9,18 @@ import sys
 sys.path.insert(0, 'py')
 from py2coq import gen
 from vlib import core as V
+import glob, importlib, os
+for f in sorted(glob.glob('py/props/c*.py')):
+    try:
+        m = importlib.import_module('props.' + os.path.basename(f)[:-3])
+        gen.register(getattr(m, 'GEN_JOBS', {}))
+        for hook in getattr(m, 'PREBUILD', []):
+            try:
+                hook(None)
+            except Exception as e:
+                print('prebuild', hook.__name__, 'FAILED', e)
+    except Exception as e:
+        print('import', f, 'FAILED', e)
 for j in gen.JOBS:
     try:
         print('gen', j, gen.generate(j)[1])
